@@ -173,6 +173,11 @@ def alphabet(model, profile):
             if m2 is not None:
                 out.append((step, m2))
                 break
+    # a file whose Joliet / UDF names are not ASCII (a taken name whose stored form differs from the path component)
+    uni = [ops.add_fp(model.cfg, 'UNI', '/', 'c1')]
+    m2 = ops.enabled(model, uni)
+    if m2 is not None and (model.cfg.get('joliet') or model.cfg.get('udf')):
+        out.append((uni, m2))
     # an image that add_isohybrid accepts (boot file with the isolinux signature, load size 4), so that its refusals for
     # bad geometry / partition parameters are reached
     hyb = [ops.add_fp(model.cfg, 'B', '/', 'boot'), ['add_eltorito', {'bootfile_path': '/B.;1', 'boot_load_size': 4}]]
